@@ -1,0 +1,55 @@
+//! Verification hooks (only compiled with the `verif` feature).
+//!
+//! Re-exports crate-private items and exposes thin constructors/accessors so that
+//! out-of-tree verification harnesses can drive the real code. Nothing here changes
+//! behaviour; with the feature off this module does not exist.
+
+#![allow(missing_docs)]
+
+pub use crate::frame::{Frame, Opcode};
+pub use crate::util::base64::{Base64Decode, Base64Encode};
+pub use crate::util::sha1::SHA1Hash;
+
+use crate::error::WebsocketError;
+use humphrey::http::Request;
+use humphrey::stream::Stream;
+
+/// Builds a frame from its raw parts (fields are crate-private).
+pub fn frame_from_parts(
+    fin: bool,
+    rsv: [bool; 3],
+    opcode: Opcode,
+    mask: bool,
+    length: u64,
+    masking_key: [u8; 4],
+    payload: Vec<u8>,
+) -> Frame {
+    Frame {
+        fin,
+        rsv,
+        opcode,
+        mask,
+        length,
+        masking_key,
+        payload,
+    }
+}
+
+/// Splits a frame into its raw parts.
+#[allow(clippy::type_complexity)]
+pub fn frame_parts(f: Frame) -> (bool, [bool; 3], Opcode, bool, u64, [u8; 4], Vec<u8>) {
+    (
+        f.fin,
+        f.rsv,
+        f.opcode,
+        f.mask,
+        f.length,
+        f.masking_key,
+        f.payload,
+    )
+}
+
+/// Calls the private handshake function.
+pub fn handshake(request: Request, stream: &mut Stream) -> Result<(), WebsocketError> {
+    crate::handler::verif_handshake(request, stream)
+}
